@@ -442,7 +442,21 @@ def binop(I, st, op, a, b, inplace=False):
                     if res.shape != tgt.shape:
                         yield st1, exc("ValueError", "non-broadcastable output operand")
                         continue
-                    tgt.data[:] = list(res.data)
+                    # the result is written back into the array's OWN dtype under numpy's same_kind casting rule:
+                    # bool -> int64 -> float64 is allowed, the other direction raises UFuncTypeError (a TypeError):
+                    # `intarr += 1.5`, `intarr /= 2`, `boolarr += 1`
+                    rk, tk = npmodel.dtype_of(res), npmodel.dtype_of(tgt)
+                    order = {"b": 0, "i": 1, "f": 2}
+                    if tk != "O" and rk != tk:
+                        if rk not in order or tk not in order:
+                            raise Unsupported("in-place arithmetic between arrays of kinds %s and %s" % (tk, rk))
+                        if order[rk] > order[tk]:
+                            yield st1, exc("TypeError", "Cannot cast ufunc output from dtype %s to dtype %s with casting rule 'same_kind'" % (rk, tk))
+                            continue
+                    vals = [npmodel.cast_elem(I, st1, tgt, x) for x in res.data]
+                    if any(isinstance(x, Exc) for x in vals):
+                        raise Unsupported("in-place arithmetic: element not storable")
+                    tgt.data[:] = vals
                     npmodel.sync_views(st1, a)
                     yield st1, a
                 return
